@@ -53,6 +53,9 @@ type World struct {
 	curLoopKeys    map[string]bool // heap keys the loop whose head is being processed may write
 	splits         []Term
 	quantFacts     []quantFact
+	rawFacts       []rawFact // universally quantified facts of the memory model (append), instantiated like quantFacts
+	pendingParts   []Term
+	pendingSplits  []Term
 	witnessTerms   []Term // constants naming the witnesses of assumed existentials (instantiation candidates)
 	loopFreshOnly  map[string]bool
 	loopPreserved  map[string]bool
@@ -712,6 +715,12 @@ func iteChain(conds, vals []Term) Term {
 // ---------------------------------------------------------------------
 // Obligations
 
+// rawFact is a fact "forall j. inst(j)" produced by the VC generator itself.
+type rawFact struct {
+	guard Term
+	inst  func(j Term) Term
+}
+
 type Obligation struct {
 	Name         string // func#label
 	Func         string
@@ -722,6 +731,8 @@ type Obligation struct {
 	Goal         Term
 	Mark         int // script prefix length
 	Sliced       bool // the query was reduced to the assumptions connected to the goal
+	Parts        []Term // the goal's top-level conjuncts (each with the path condition): proved one by one when the whole does not answer
+	Splits       []Term // case distinctions suggested by the goal (a quantified index equal to / below its upper bound)
 	Prelude      string
 	Body         string
 	Expect       string // "unsat" normally; "sat" for vacuity/smoke checks
@@ -783,6 +794,9 @@ func (w *World) skolemGoal(env *CEnv, e *CExpr) Term {
 	var skCache []Term // the skolem constants, in creation order (the goal is walked twice)
 	skPos := 0
 	var extraWitnesses []Term
+	var localSplits []Term
+	var prioWitnesses []Term // witnesses named by instances at the goal's own skolem constants
+	var strSks []Term // String-sorted skolem constants (keys of maps)
 	var walk func(env *CEnv, e *CExpr) Term
 	walk = func(env *CEnv, e *CExpr) Term {
 		switch {
@@ -794,20 +808,56 @@ func (w *World) skolemGoal(env *CEnv, e *CExpr) Term {
 			// universally quantified hypotheses are instantiated at the candidate terms as well
 			var insts []Term
 			var collect func(h *CExpr)
+			henv := env
 			collect = func(h *CExpr) {
+				env := henv
 				switch {
 				case h.Op == "bin" && h.Name == "&&":
 					collect(h.Args[0])
 					collect(h.Args[1])
+				case h.Op == "call" && h.Args[0].Op == "id" && h.Args[0].Name == "old" && len(h.Args) == 2:
+					// old(H): the hypothesis about the state at entry
+					saved := henv
+					n := *henv
+					n.inOld = true
+					henv = &n
+					collect(h.Args[1])
+					henv = saved
+				case h.Op == "call" && h.Args[0].Op == "id":
+					// a macro standing for a quantified hypothesis
+					if m, ok := w.lookupMacro(env, h.Args[0].Name); ok && len(m.Params) == len(h.Args)-1 {
+						func() {
+							defer func() {
+								if r := recover(); r != nil {
+									if _, ok := r.(unsupportedErr); !ok {
+										panic(r)
+									}
+								}
+							}()
+							saved := henv
+							inner := henv
+							for i, p := range m.Params {
+								inner = inner.with(p, w.eval(henv, h.Args[i+1]))
+							}
+							henv = inner
+							collect(m.Body)
+							henv = saved
+						}()
+					}
 				case h.Op == "forall" && len(h.Binders) >= 1 && len(h.Binders) <= 2:
 					for _, b := range h.Binders {
 						if !((b.Type.Name == "int" || b.Type.Name == "Int") && b.Type.Ptr == 0 && b.Type.Pkg == "" && !b.Type.Slice && b.Type.Raw == "") {
 							return
 						}
 					}
-					cands := append(append([]Term{}, sks...), w.indexTerms...)
-					if len(cands) > 8 {
-						cands = cands[:8]
+					cands := append([]Term{}, sks...)
+					for _, sk := range sks {
+						// neighbours of the goal's own positions (an element shifted by one)
+						cands = append(cands, add(sk, intLit(1)))
+					}
+					cands = append(cands, w.indexTerms...)
+					if len(cands) > 10 {
+						cands = cands[:10]
 					}
 					var combos [][]Term
 					if len(h.Binders) == 1 {
@@ -863,6 +913,48 @@ func (w *World) skolemGoal(env *CEnv, e *CExpr) Term {
 				}
 				skPos++
 				inner = inner.with(b.Name, &Val{T: sk, Typ: typ})
+				if srt == SString {
+					dup := false
+					for _, x := range strSks {
+						if x.S == sk.S {
+							dup = true
+						}
+					}
+					if !dup {
+						strSks = append(strSks, sk)
+					}
+				}
+				if srt == SInt && e.Args[0].Op == "bin" && e.Args[0].Name == "==>" {
+					// "v <= E" / "v < E" in the guard: v at its upper bound is the natural case distinction
+					var ub func(c *CExpr)
+					ub = func(c *CExpr) {
+						if c.Op == "bin" && c.Name == "&&" {
+							ub(c.Args[0])
+							ub(c.Args[1])
+							return
+						}
+						if c.Op == "bin" && (c.Name == "<=" || c.Name == "<") && c.Args[0].Op == "id" && c.Args[0].Name == b.Name && len(localSplits) < 2 {
+							func() {
+								defer func() {
+									if r := recover(); r != nil {
+										if _, ok := r.(unsupportedErr); !ok {
+											panic(r)
+										}
+									}
+								}()
+								bound := w.eval(inner, c.Args[1]).T
+								if strings.Contains(bound.S, "q!") {
+									return
+								}
+								if c.Name == "<" {
+									bound = sub(bound, intLit(1))
+								}
+								localSplits = append(localSplits, eq(sk, bound))
+							}()
+						}
+					}
+					ub(e.Args[0].Args[0])
+				}
 				if srt == SInt {
 					dup := false
 					for _, x := range sks {
@@ -880,7 +972,30 @@ func (w *World) skolemGoal(env *CEnv, e *CExpr) Term {
 			// a positive existential: offer the program's index terms as witnesses
 			// (G(t1) or ... or exists k. G(k) is equivalent to the original)
 			alts := []Term{w.evalBool(env, e)}
-			for _, t := range append(append(append([]Term{}, w.indexTerms...), sks...), extraWitnesses...) {
+			cands := append(append(append([]Term{}, w.indexTerms...), sks...), extraWitnesses...)
+			// "k < len(x)" in the body: the last position is a natural witness (the element just appended)
+			var bounds func(c *CExpr)
+			bounds = func(c *CExpr) {
+				if c.Op == "bin" && c.Name == "&&" {
+					bounds(c.Args[0])
+					bounds(c.Args[1])
+					return
+				}
+				if c.Op == "bin" && c.Name == "<" && c.Args[0].Op == "id" && c.Args[0].Name == e.Binders[0].Name {
+					func() {
+						defer func() {
+							if r := recover(); r != nil {
+								if _, ok := r.(unsupportedErr); !ok {
+									panic(r)
+								}
+							}
+						}()
+						cands = append(cands, sub(w.eval(env, c.Args[1]).T, intLit(1)))
+					}()
+				}
+			}
+			bounds(e.Args[0])
+			for _, t := range cands {
 				func() {
 					defer func() {
 						if r := recover(); r != nil {
@@ -968,10 +1083,62 @@ func (w *World) skolemGoal(env *CEnv, e *CExpr) Term {
 					for i, b := range qf.expr.Binders {
 						env2 = env2.with(b.Name, &Val{T: combo[i], Typ: types.Typ[types.Int]})
 					}
+					nw0 := len(w.witnessTerms)
 					inst := w.evalBool(env2, qf.expr.Args[0])
 					w.sc.assume(implies(qf.guard, inst))
+					// witnesses of instances at the goal's own (skolem) positions are the ones the goal needs first
+					own := true
+					for _, ct := range combo {
+						isSk := false
+						for _, sk := range sks {
+							if sk.S == ct.S {
+								isSk = true
+							}
+						}
+						own = own && isSk
+					}
+					if own {
+						prioWitnesses = append(prioWitnesses, w.witnessTerms[nw0:]...)
+					}
 				}()
 			}
+		}
+	}
+	// facts quantified over one String (map keys) are instantiated at the String skolem constants
+	if len(strSks) > 0 {
+		isStr := func(b Binder) bool {
+			return (b.Type.Name == "String" || b.Type.Name == "string") && b.Type.Ptr == 0 && b.Type.Pkg == "" && !b.Type.Slice && b.Type.Raw == ""
+		}
+		for _, qf := range w.quantFacts {
+			if len(qf.expr.Binders) != 1 || !isStr(qf.expr.Binders[0]) {
+				continue
+			}
+			for _, t := range strSks {
+				func() {
+					defer func() {
+						if r := recover(); r != nil {
+							if _, ok := r.(unsupportedErr); !ok {
+								panic(r)
+							}
+						}
+					}()
+					var typ types.Type
+					if qf.expr.Binders[0].Type.Name == "string" {
+						typ = types.Typ[types.String]
+					}
+					env2 := qf.env.assuming().with(qf.expr.Binders[0].Name, &Val{T: t, Typ: typ})
+					w.sc.assume(implies(qf.guard, w.evalBool(env2, qf.expr.Args[0])))
+				}()
+			}
+		}
+	}
+	rf := w.rawFacts
+	if len(rf) > 6 {
+		rf = rf[len(rf)-6:]
+	}
+	for _, f := range rf {
+		for _, t := range terms {
+			w.sc.assume(implies(f.guard, f.inst(t)))
 		}
 	}
 	// witnesses named while instantiating: instantiate the (single-binder) facts at them as well, then offer
@@ -982,10 +1149,26 @@ func (w *World) skolemGoal(env *CEnv, e *CExpr) Term {
 		if len(old) > 4 {
 			old = old[len(old)-4:]
 		}
-		if len(nw) > 8 {
-			nw = nw[:8]
+		if len(nw) > 12 {
+			nw = nw[len(nw)-12:] // the most recent facts (innermost loop heads, latest calls) come last
 		}
-		return append(append([]Term{}, old...), nw...)
+		out := append([]Term{}, old...)
+		seen := map[string]bool{}
+		add1 := func(ts []Term) {
+			for _, t := range ts {
+				if !seen[t.S] {
+					seen[t.S] = true
+					out = append(out, t)
+				}
+			}
+		}
+		pw := prioWitnesses
+		if len(pw) > 16 {
+			pw = pw[len(pw)-16:]
+		}
+		add1(pw)
+		add1(nw)
+		return out
 	}
 	if nw := w.witnessTerms[witMark:]; len(nw) > 0 || witMark > 0 {
 		cands := recent()
@@ -1007,11 +1190,38 @@ func (w *World) skolemGoal(env *CEnv, e *CExpr) Term {
 				}()
 			}
 		}
+		for _, f := range rf {
+			for _, t := range cands {
+				w.sc.assume(implies(f.guard, f.inst(t)))
+			}
+		}
 		extraWitnesses = cands
 		skPos = 0
 		goal = walk(env, e)
 	}
 	w.witnessTerms = w.witnessTerms[:witMark] // the ones named here are declared in this obligation's own text
+	// top-level conjuncts of the goal, walked with the same skolem constants
+	var flat func(c *CExpr, out *[]*CExpr)
+	flat = func(c *CExpr, out *[]*CExpr) {
+		if c.Op == "bin" && c.Name == "&&" {
+			flat(c.Args[0], out)
+			flat(c.Args[1], out)
+			return
+		}
+		*out = append(*out, c)
+	}
+	var cs []*CExpr
+	flat(e, &cs)
+	w.pendingParts = nil
+	if len(cs) > 1 && len(cs) <= 12 {
+		skPos = 0
+		nSplits := len(localSplits)
+		for _, c := range cs {
+			w.pendingParts = append(w.pendingParts, walk(env, c))
+		}
+		localSplits = localSplits[:nSplits]
+	}
+	w.pendingSplits = localSplits
 	w.pendingExtra = w.sc.cut(instMark)
 	return goal
 }
@@ -1020,6 +1230,10 @@ func (w *World) oblige(kind, label string, cond, goal Term, star bool, props []s
 	o := &Obligation{Name: w.curFn + "#" + label, Func: w.curFn, Label: label, Kind: kind, Star: star, Props: props,
 		Goal: implies(cond, goal), Mark: w.sc.mark(), Expect: "unsat"}
 	o.Extra, w.pendingExtra = w.pendingExtra, nil
+	for _, p := range w.pendingParts {
+		o.Parts = append(o.Parts, implies(cond, p))
+	}
+	o.Splits, w.pendingParts, w.pendingSplits = w.pendingSplits, nil, nil
 	if w.muted > 0 {
 		return o // re-execution of code whose obligations are generated elsewhere
 	}
